@@ -260,3 +260,62 @@ class RealizeMemrefCasts_dynamic_sizes_contract:
 
     def canary(sh, a, ret):
         check("canary: no dynamic sizes are ever passed", len([e for e in ret if e[0] == "replace_op"][0][2][-1].dynamic_sizes) == 0)
+
+
+# =====================================================================================
+# ApplyLayoutCastSubviewGlobal: a global is only re-laid-out when the subview is its ONLY reader
+# =====================================================================================
+import snaxc.transforms.realize_memref_casts as rmc  # noqa: E402
+
+SG = {}
+
+
+def lookup_observer(local):
+    """SymbolTable.lookup_symbol through a recording double: reaching it means the pattern got past its guards"""
+    SG["lookups"] = SG.get("lookups", 0) + 1
+    return None
+
+
+@contract
+class ApplyLayoutCastSubviewGlobal_guard_contract:
+    """the pattern goes on to transform the global only if the memref.get_global has exactly one use (this subview): every
+    other reader would keep its old type over the re-laid-out data"""
+    target = "snaxc.transforms.realize_memref_casts.ApplyLayoutCastSubviewGlobal.match_and_rewrite"
+    shapes = [dict(global_uses=g, subview_uses=s) for g in (1, 2, 3) for s in (1, 2)]
+    native = False
+    total = True
+    permissive = True
+    compare_ret = False
+    modular = {"xdsl.traits.SymbolTable.lookup_symbol": lookup_observer}
+
+    def args(sh, sym):
+        SG["lookups"] = 0
+        t = MemRefType(i32, [8, 8], NoneAttr(), StringAttr("L3"))
+        gg = memref.GetGlobalOp()
+        gg._init_op([], [None], [t])
+        gg.name_ = StringAttr("weights")
+        sv = memref.SubviewOp(gg.results[0], t, [], [], [], [0, 0], [8, 8], [1, 1])
+        gg.results[0].uses.append(Use(sv, 0))
+        for _ in range(sh["global_uses"] - 1):
+            other = memref.SubviewOp(gg.results[0], t, [], [], [], [0, 0], [8, 8], [1, 1])
+            gg.results[0].uses.append(Use(other, 0))
+        cast = LayoutCast(sv.results[0], t)
+        sv.results[0].uses.append(Use(cast, 0))
+        for _ in range(sh["subview_uses"] - 1):
+            sv.results[0].uses.append(Use(OtherOp([sv.results[0]]), 0))
+        blk = Block([gg, sv, cast])
+        Region([blk])
+        return [rmc.ApplyLayoutCastSubviewGlobal(), cast]
+
+    def run(sh, a):
+        rw = PatternRewriter(a[1])
+        a[0].match_and_rewrite(a[1], rw)
+        return rw.log
+
+    def ensures(sh, a, ret):
+        check("the global is only looked up (and then transformed) when the get_global has a single use", SG["lookups"] == 0 or sh["global_uses"] == 1)
+        check("a get_global with a single use is processed", sh["global_uses"] != 1 or SG["lookups"] == 1)
+        check("nothing is rewritten in this view (the global cannot be resolved)", len(ret) == 0)
+
+    def canary(sh, a, ret):
+        check("canary: the global is never looked up", SG["lookups"] == 0)
